@@ -12,20 +12,20 @@ Import ListNotations.
 Inductive nkind := NCond (cs : list atom) | NSel (s : sel) | NEntity | NAn.
 Record node := { nk : nkind; nleft : option nat; nright : option nat; nchild : option nat;
                  nparent : option nat; nconcl : list nat }.
-Definition heap := list node.
+(* the heap: a total map from node ids to nodes and the next free id (ids are allocated in Python's order) *)
+Record heap := { cells : nat -> node; next : nat }.
 
 Record bstate := { hp : heap; stack : list nat; croot : option nat }.
 
 Definition dummy := {| nk := NAn; nleft := None; nright := None; nchild := None; nparent := None; nconcl := [] |}.
-Definition nd (h : heap) (i : nat) : node := nth i h dummy.
-Fixpoint upd (h : heap) (i : nat) (f : node -> node) : heap :=
-  match h, i with
-  | [], _ => []
-  | n :: h', O => f n :: h'
-  | n :: h', S i' => n :: upd h' i' f
-  end.
+Definition nd (h : heap) (i : nat) : node := cells h i.
+Definition upd (h : heap) (i : nat) (f : node -> node) : heap :=
+  {| cells := fun n => if Nat.eqb n i then f (cells h n) else cells h n; next := next h |}.
+Definition fresh_node (k : nkind) : node :=
+  {| nk := k; nleft := None; nright := None; nchild := None; nparent := None; nconcl := [] |}.
 Definition alloc (h : heap) (k : nkind) : heap * nat :=
-  (h ++ [{| nk := k; nleft := None; nright := None; nchild := None; nparent := None; nconcl := [] |}], length h).
+  ({| cells := fun n => if Nat.eqb n (next h) then fresh_node k else cells h n; next := Datatypes.S (next h) |}, next h).
+Definition empty_heap : heap := {| cells := fun _ => dummy; next := 0 |}.
 
 Definition w_left v n := {| nk := nk n; nleft := v; nright := nright n; nchild := nchild n; nparent := nparent n; nconcl := nconcl n |}.
 Definition w_right v n := {| nk := nk n; nleft := nleft n; nright := v; nchild := nchild n; nparent := nparent n; nconcl := nconcl n |}.
@@ -104,7 +104,7 @@ Definition do_alt_next (s : sel) (cs : list atom) (st : bstate) : option (bstate
   match stack st with
   | [] => None
   | top :: _ =>
-      let cur := climb (Datatypes.S (length h0)) h0 top in
+      let cur := climb (Datatypes.S (next h0)) h0 top in
       let pp := nparent (nd h0 cur) in
       match set_parent h0 cur None with
       | None => None
@@ -144,7 +144,7 @@ Fixpoint cond_root (fuel : nat) (h : heap) (x : nat) : nat :=
 (* `__enter__` (symbolic.py:363-368); the cached property is per node object: only the query object is ever asked *)
 Definition enter (x : nat) (st : bstate) : bstate :=
   let h := hp st in
-  let fuel := Datatypes.S (length h) in
+  let fuel := Datatypes.S (next h) in
   let rt := root_of fuel h x in
   if Nat.eqb x rt || oeq (nparent (nd h x)) rt then
     let c := match croot st with Some c => c | None => cond_root fuel h rt end in
@@ -194,7 +194,7 @@ Fixpoint exec_body (r : rule) (st : bstate) {struct r} : option bstate :=
 (* q = an(entity(views, *conds)); with q: <body> *)
 Definition ENTITY := 1. Definition AN := 2.
 Definition build (prog : rule) : option heap :=
-  let (h0, c0) := alloc [] (NCond (r_conds prog)) in
+  let (h0, c0) := alloc empty_heap (NCond (r_conds prog)) in
   let (h1, ent) := alloc h0 NEntity in
   let (h2, an) := alloc h1 NAn in
   let h3 := upd (upd h2 ent (w_child (Some c0))) c0 (w_parent (Some ent)) in
@@ -222,7 +222,7 @@ Fixpoint reify_at (fuel : nat) (h : heap) (x : nat) : option tree :=
       end
   end.
 Definition reify (h : heap) : option tree :=
-  match nchild (nd h ENTITY) with Some c => reify_at (Datatypes.S (length h)) h c | None => None end.
+  match nchild (nd h ENTITY) with Some c => reify_at (Datatypes.S (next h)) h c | None => None end.
 
 (* the whole model: build, reify, evaluate *)
 Definition model (prog : rule) (W : list elem) : option (list (list nat * nat)) :=
